@@ -36,6 +36,10 @@ def sourceHashes : List (String × String) :=
    ("case parenExpr#1", "65a34b4f4445f16e"),
    ("case parenExpr#2", "4a8379d90b552d93"),
    ("case parenExpr#3", "5fc4865eeba4feb4"),
+   ("case switchIfStmt#0", "773e4a50ec016090"),
+   ("case switchIfStmt#1", "e1a8aec3738c8e73"),
+   ("case switchStmt#0", "773e4a50ec016090"),
+   ("case switchStmt#1", "46d028998950625e"),
    ("wireChild", "a85b0d7e0de5134f"),
    ("setFNext", "0f44129452794df2"),
    ("runCfg", "d90b0b7ab1fcffd5"),
@@ -46,7 +50,7 @@ def sourceHashes : List (String × String) :=
    ("binaryExpr: findex switch", "48c75e35f0734e48"),
    ("unaryExpr: findex switch", "878ef56087096278"),
    ("isArithmeticAction", "f57163de29913322"),
-   ("run.go assign", "bc12620dcf6fb973"),
+   ("run.go assign", "59eb4dfab86ac553"),
    ("run.go _return", "6895724d699b988d"),
    ("run.go neg", "200badd1f78ebdba"),
    ("run.go bitNot", "dbce9a8788bf2dae"),
@@ -74,6 +78,10 @@ def sourceHashes : List (String × String) :=
 --   case assignStmt, defineStmt: define allocates a slot — 52cb9ff rejects an untyped nil source; slot allocation unchanged
 --   new tied fact "call copies the results when the callee returns" (1b5ab85, repairs F01): both Lean levels with calls deliver the result at the
 --     return (doReturn / doReturn2), neither assumed that the callee's result slot is the caller's destination cell
+-- Round-6 sync (/repo at 7171cc6): run.go assign — 8f0dcdc types the temporaries of the MULTI-assign branch after the destination; single assign and
+--   the define branch unchanged. New rows `case switchStmt#0/#1`, `case switchIfStmt#0/#1` (pre-order scope push, post-order clause wiring): taken after
+--   64eb664 (tagged switch: every expression of a non-constant case list is wired before the clause test; with ONE expression per clause — the fragment —
+--   `c.child[0].tnext = c` as before) and 3b98047 (tagless switch: the conditions of a case list are chained, F53 repaired; one condition: unchanged).
 /-- fingerprints of the functions and clauses Model/Closures.lean transcribes -/
 def closureHashes : List (String × String) :=
   [("newFrame", "8d3a53ebf9cf8afa"),
